@@ -56,7 +56,10 @@ RULE = ("seconds {range ends, +-1 around them, -1, 0, 1, random} x microseconds 
         "utcoffset() is None, a date object; ISO strings also date-only / YYYY-MM / YYYY / without seconds / hour only / basic "
         "format / comma / more than 6 fraction digits (truncation) / one-digit month and day / tz minutes >= 60; for a "
         "deterministic third of the objects (and all with non-5-byte offset bytes) the other routes are walked: to_dict() "
-        "shape, from_dict(to_dict()), keyword and positional constructor, Timestamp.from_dict - equal object, equal hash; ISO-8601 strings incl. -00:00; raw offset bytes in "
+        "shape, from_dict(to_dict()), keyword and positional constructor, Timestamp.from_dict - equal object, equal hash; ISO-8601 strings incl. -00:00; about 7 % of the draws of every numeric dimension (seconds, microseconds, offsets in "
+        "minutes and seconds, tz fields of ISO strings, total length of offset_bytes digit strings, legacy numbers in dicts) come "
+        "from the integer constants found in swh/model/*.py of the repository under test, each with -1 / +1 and negated, and "
+        "offset bytes of every total length around a harvested constant in 2..70 are parsed and stored; raw offset bytes in "
         "[+-][0-9]+ incl. the 4300-digit int() limit.  non-trivial = non-zero microseconds, or an offset whose minute "
         "part is not 0, or seconds < 0, or an error branch; distinct = distinct canonical case")
 TRUSTED = [
@@ -331,7 +334,41 @@ SEC_EDGE = [MIN_S, MAX_S, MIN_S - 1, MAX_S + 1, MIN_S + 1, MAX_S - 1, -1, 0, 1,
 US_POOL = [0, 1, 10, 100000, 999999, 500000, -1, 10 ** 6, 123456, 120000, 999990, 7, 9, 90, 99, 100, 999985]
 
 
+_SRC = {}
+
+
+def src_ints(lo=None, hi=None):
+    """integer constants harvested from swh/model/*.py of the repository under test (each with its -1 / +1 neighbours),
+    also negated, restricted to [lo, hi]: a threshold that a change introduces is then hit at its boundary"""
+    if "all" not in _SRC:
+        try:
+            from .gitobj_common import source_ints
+            base = list(source_ints())
+        except Exception:
+            base = []
+        _SRC["all"] = sorted(set(base) | {-v for v in base})
+    key = (lo, hi)
+    if key not in _SRC:
+        _SRC[key] = [v for v in _SRC["all"] if (lo is None or v >= lo) and (hi is None or v <= hi)]
+    return _SRC[key]
+
+
+SRC_SHARE = 0.07
+
+
+def src_draw(rng, lo=None, hi=None):
+    """None most of the time; with probability SRC_SHARE a harvested constant in [lo, hi]"""
+    if rng.random() < SRC_SHARE:
+        l = src_ints(lo, hi)
+        if l:
+            return rng.choice(l)
+    return None
+
+
 def rnd_sec(rng):
+    v = src_draw(rng)
+    if v is not None:
+        return v
     r = rng.random()
     if r < 0.25:
         return rng.choice(SEC_EDGE)
@@ -345,6 +382,9 @@ def rnd_sec(rng):
 
 
 def rnd_us(rng, valid_only=False):
+    v = src_draw(rng, 0 if valid_only else -2 * 10 ** 6, (10 ** 6 - 1) if valid_only else 2 * 10 ** 6)
+    if v is not None:
+        return v
     r = rng.random()
     if r < 0.5:
         u = rng.choice(US_POOL)
@@ -358,6 +398,9 @@ def rnd_us(rng, valid_only=False):
 
 
 def rnd_off16(rng):
+    v = src_draw(rng, -70000, 70000)
+    if v is not None:
+        return v
     r = rng.random()
     if r < 0.3:
         return rng.choice([0, 1, -1, 59, 60, 61, -59, -60, -61, 330, -330, 1439, -1439, 1440, -1440, 5999, 6000,
@@ -365,7 +408,24 @@ def rnd_off16(rng):
     return rng.randrange(-32768, 32768)
 
 
+def offset_bytes_of_len(rng, L):
+    """offset bytes of total length L in [+-][0-9]+ that still denote a small offset (zero-padded hours), so that a
+    length guard shows as a wrong number"""
+    sign = rng.choice(["+", "-"])
+    if L <= 1:
+        return sign.encode()
+    if L <= 3:
+        return (sign + "%0*d" % (L - 1, rng.randrange(0, 10 ** (L - 1)))).encode()
+    hm = "%02d" % rng.choice([0, 30, 45, 59, rng.randrange(60)])
+    hours = "%d" % rng.choice([1, 5, 12, 23, 99, 100, 546, rng.randrange(0, 547)])
+    hours = hours[-(L - 3):] if len(hours) > L - 3 else hours
+    return (sign + hours.rjust(L - 3, "0") + hm).encode()
+
+
 def rnd_offset_bytes(rng):
+    L = src_draw(rng, 2, 70)
+    if L is not None:
+        return offset_bytes_of_len(rng, L)
     r = rng.random()
     sign = rng.choice(["+", "-"])
     if r < 0.35:
@@ -551,6 +611,10 @@ def gen_iso(rng):
     tzk = rng.choice(["Z", "", "-00:00", "+00:00", "-0000", "-00", "hm", "hm", "hm", "hhmm", "hh"])
     if tzk in ("hm", "hhmm", "hh"):
         sg, th, tm = rng.choice("+-"), rng.randrange(24), rng.choice([0, 0, 30, 45, rng.randrange(60)])
+        v = src_draw(rng, 0, 23)
+        th = th if v is None else v
+        v = src_draw(rng, 0, 59)
+        tm = tm if v is None else v
         tz = {"hm": "%s%02d:%02d" % (sg, th, tm), "hhmm": "%s%02d%02d" % (sg, th, tm), "hh": "%s%02d" % (sg, th)}[tzk]
         if tzk == "hh":
             tm = 0
@@ -662,7 +726,9 @@ def bytes_choices(rng, off):
     """offset_bytes candidates for a dict whose legacy number is `off` (an int, or None when there is none)"""
     o = off if isinstance(off, int) else rng.choice(DICT_OFFS)
     other = rng.choice([x for x in DICT_OFFS if x != o])
-    return [canon_bytes(o), canon_bytes(o, True) if o == 0 else canon_bytes(-o) if o else b"-0000",   # canonical / sign flipped
+    lens = src_ints(2, 70)
+    extra = [offset_bytes_of_len(rng, rng.choice(lens)) for _ in range(2)] if lens else []
+    return extra + [canon_bytes(o), canon_bytes(o, True) if o == 0 else canon_bytes(-o) if o else b"-0000",   # canonical / sign flipped
             canon_bytes(other), canon_bytes(o + 1),                                                 # a DIFFERENT number
             b"-0000", b"+0000"] + NONCANON
 
@@ -689,7 +755,7 @@ def gen_dicts(rng, tier):
         if off in (0, 1) and rng.random() < 0.3:
             c["off"] = bool(off)
         cases.append(c)
-    offs = DICT_OFFS + ["absent", "none"]
+    offs = DICT_OFFS + rng.sample(src_ints(-70000, 70000), min(4 if quick else 40, len(src_ints(-70000, 70000)))) + ["absent", "none"]
     negs = ["absent", "none", False, True]
     # systematic: every (legacy number or none) x (bytes absent / non-bytes / canonical / non-canonical / other number)
     # x negative_utc (absent, None, False, True - so also contradicting the bytes), on acceptable timestamps
@@ -784,12 +850,17 @@ def gen(rng, tier):
             cases.append(gen_dt_fixed(rng, 60 * k))
     for _ in range(400 if quick else 8000):
         cases.append(gen_dt_fixed(rng, rng.choice([561, -561, 1, -1, 59, -59, 86399, -86399, rng.randrange(-86399, 86400)])))
+    for k in src_ints(-1439, 1439):                      # whole-minute offsets at harvested constants
+        cases.append(gen_dt_fixed(rng, 60 * k))
+    for k in rng.sample(src_ints(-86399, 86399), min(40, len(src_ints(-86399, 86399)))):   # ... and as seconds
+        cases.append(gen_dt_fixed(rng, k))
     if ZONES:
         for _ in range(3000 if quick else 120000):
             cases.append(gen_dt_zone(rng))
     if not quick:
         for _ in range(250000):
-            cases.append(gen_dt_fixed(rng, 60 * rng.randrange(-1439, 1440)))
+            k = src_draw(rng, -1439, 1439)
+            cases.append(gen_dt_fixed(rng, 60 * (k if k is not None else rng.randrange(-1439, 1440))))
     # 4b. named zones AT their transitions: repeated hours with fold 0 and 1, gaps, edges (zoneinfo, dateutil, pytz)
     cases += gen_transitions(rng, tier)
     cases.append({"k": "naive", "wall_us": 0})
@@ -835,6 +906,12 @@ def gen(rng, tier):
         cases.append(gen_iso(rng))
     for _ in range(700 if quick else 20000):
         cases.append(gen_iso_forms(rng))
+    # 7a. offset bytes of every total length around a harvested small constant (a 5-vs-6-byte guard, a digit-count limit)
+    for L in src_ints(2, 70):
+        for _ in range(2 if quick else 12):
+            ob = offset_bytes_of_len(rng, L)
+            cases.append({"k": "pob", "ob": ob.hex()})
+            cases.append({"k": "dnew", "t": "int:i%d" % min(max(rnd_sec(rng), MIN_S), MAX_S), "ob": ob.hex()})
     # 7. raw offset bytes in the modelled domain
     for _ in range(1500 if quick else 30000):
         ob = rnd_offset_bytes(rng)
